@@ -30,9 +30,12 @@ RULE = (
     "requested subset smaller than the set of source files. distinct = "
     "distinct (graph, kinds, requested subset, directory names).")
 ASSUMPTIONS = [
-    "module-relative short paths are identifier-like (module names are Python "
-    "identifiers; the .imports format is space-separated by design); project "
-    "root and output directory names contain spaces, colons and dollar signs",
+    "module-relative short paths contain no white space (the .imports format "
+    "is space-separated by design); besides identifier-like names there are a "
+    "module called `default`, `pk.default`, `da-sh` and three names that "
+    "differ only in a character outside [A-Za-z0-9_.-] (`tw+n`, `tw_n`, "
+    "`tw@n`); project root and output directory names contain spaces, colons "
+    "and dollar signs",
     "the import graph is presented through importlab's own DependencyGraph "
     "(SCC condensation, deps_list) with a table-driven get_file_deps, i.e. "
     "importlab's file-system resolver itself is outside the property",
@@ -66,7 +69,20 @@ def module_files(proj):
     kind = m["kind"]
     base = "/usr/lib/py" if kind == "System" else root
     ext = m["ext"]
-    if m.get("pext"):
+    if m.get("odd"):
+      # names that are legal file / module names for a build step but unusual:
+      # a module called `default` (like the generated default.pyi), and names
+      # that differ only in a character outside [A-Za-z0-9_.-]
+      stem = {"default": "default", "twin-a": "tw+n", "twin-b": "tw_n",
+              "twin-c": "tw@n", "dash": "da-sh", "default-pkg": "default"}[
+                  m["odd"]]
+      if m["inpkg"] or m["odd"] == "default-pkg":
+        name = "pk." + stem
+        path = "%s/pk/%s.%s" % (base, stem, ext)
+      else:
+        name = stem
+        path = "%s/%s.%s" % (base, stem, ext)
+    elif m.get("pext"):
       # pytype's own extensions library is analysed even when it is a
       # System/Builtin module (pytype_runner.get_module_action)
       name = "pytype_extensions.m%d" % i
@@ -561,6 +577,33 @@ def module_variants(n, rich):
   return itertools.product(opts, repeat=n)
 
 
+ODD = ["default", "default-pkg", "twin-a", "twin-b", "twin-c", "dash"]
+
+
+def exhaustive_odd_names(ctx, n, stride=1):
+  """All digraphs on n Local .py modules whose names are n distinct picks
+  from ODD plus the plain name, every non-empty requested subset."""
+  pairs = [(a, b) for a in range(n) for b in range(n) if a != b]
+  idx = 0
+  names = [None] + ODD
+  for picks in itertools.permutations(names, n):
+    if not any(picks):
+      continue
+    mods = [dict(kind="Local", ext="py", init=False, inpkg=False,
+                 **({"odd": o} if o else {})) for o in picks]
+    for mask in range(1 << len(pairs)):
+      edges = [list(pairs[i]) for i in range(len(pairs)) if mask >> i & 1]
+      for r in range(1, n + 1):
+        for inputs in itertools.combinations(range(n), r):
+          idx += 1
+          if idx % (ctx.nshards * stride) != ctx.shard * stride:
+            continue
+          proj = {"root": ROOTS[idx % len(ROOTS)], "out": OUTS[idx % len(OUTS)],
+                  "modules": [dict(m) for m in mods], "edges": edges,
+                  "inputs": list(inputs), "broken": []}
+          check_project(ctx, proj, "O%d" % n, use_real_ninja=False)
+
+
 def exhaustive(ctx, n, rich, real_every):
   pairs = [(a, b) for a in range(n) for b in range(n) if a != b]
   idx = 0
@@ -611,6 +654,12 @@ def project_strategy():
       mods.append(dict(kind=kind, ext=ext, init=lay == "init",
                        inpkg=lay == "inpkg",
                        pext=(kind == "System" and draw(st.integers(0, 2)) == 0)))
+    # a few unusual names (each at most once per project)
+    for o in draw(st.lists(st.sampled_from(ODD), max_size=3, unique=True)):
+      k = draw(st.integers(0, n - 1))
+      if not mods[k].get("odd") and not mods[k]["init"] and not mods[k].get(
+          "pext"):
+        mods[k] = dict(mods[k], odd=o, inpkg=False)
     srcs = [i for i, m in enumerate(mods)
             if m["ext"] == "py" and m["kind"] != "System"]
     if not srcs:
@@ -634,11 +683,15 @@ def run_shard(ctx):
   if ctx.quick():
     exhaustive(ctx, 2, rich=True, real_every=40)
     exhaustive(ctx, 3, rich=True, real_every=997)
+    exhaustive_odd_names(ctx, 2)
+    exhaustive_odd_names(ctx, 3, stride=8)
     n = 100
   else:
     exhaustive(ctx, 2, rich=True, real_every=16)
     exhaustive(ctx, 3, rich=True, real_every=499)
     exhaustive(ctx, 4, rich=False, real_every=9973)
+    exhaustive_odd_names(ctx, 2)
+    exhaustive_odd_names(ctx, 3)
     n = 6000
   counter = [0]
 
